@@ -136,7 +136,7 @@ func (x *Exec) runSide(st *State, d int, J *ssa.BasicBlock) (arrivals, others []
 				others = append(others, s)
 				break
 			}
-			more := x.step(s)
+			more := x.safeStep(s)
 			stack = append(stack, more...)
 			s.steps++
 			budget--
@@ -172,7 +172,7 @@ func (x *Exec) runSideRet(st *State, d int) (arrivals, others []*State) {
 				others = append(others, s)
 				break
 			}
-			more := x.step(s)
+			more := x.safeStep(s)
 			stack = append(stack, more...)
 			s.steps++
 			budget--
